@@ -64,8 +64,14 @@ func (f *Filter) IsAllowed(res Resource) bool {
 		// typ string
 	)
 
-	if _, ok := res.Attrs()[f.Field]; ok {
+	if attr, ok := res.Attrs()[f.Field]; ok {
 		val = res.Get(f.Field)
+
+		// Some implementations (like Wrapper) return an untyped nil
+		// for a nil nullable attribute.
+		if val == nil {
+			val = GetZeroValue(attr.Type, attr.Nullable)
+		}
 	}
 
 	if rel, ok := res.Rels()[f.Field]; ok {
